@@ -161,12 +161,14 @@ def one_point(cx, api, size, injector, point, preexisting, old, ref_new, ref_pla
 
 
 def enumerate_faults(cx, tier):
-    apis = ["xlsx", "xlsx_light", "csv", "password"] + (["password_light"] if tier == "thorough" else [])
+    apis = ["xlsx", "xlsx_light", "csv", "password", "password_light"]
     sizes = ["tiny", "small", "edge", "large"]
     jobs = []
     for api in apis:
         for size in sizes:
             if api.startswith("password") and size == "large" and tier == "quick":
+                continue
+            if api == "password_light" and size != "small" and tier == "quick":
                 continue
             old, new, plain = reference(cx, api, size)
             n = len(new)
@@ -274,7 +276,7 @@ def observer_runs(cx, tier):
 def half_read_runs(cx, tier):
     """a reader that has the destination open and has read half of it while a complete save takes place must end up with
     exactly the old or exactly the new bytes; the destination is a regular file or a symbolic link to one"""
-    combos = [("xlsx", "small"), ("xlsx", "large"), ("xlsx_light", "edge"), ("csv", "small")] + ([("password", "small"), ("csv", "large"), ("xlsx_light", "large")] if tier == "thorough" else [])
+    combos = [("xlsx", "small"), ("xlsx", "large"), ("xlsx_light", "edge"), ("csv", "small"), ("password", "small"), ("password_light", "small")] + ([("csv", "large"), ("xlsx_light", "large"), ("password_light", "large")] if tier == "thorough" else [])
     for api, size in combos:
         old, new, plain = reference(cx, api, size)
         for kind in ("regular", "symlink"):
